@@ -133,7 +133,8 @@ theorem C12_orig_negative_offset_faults (off : Int) (h : off < 0) (d : Bytes) (p
         C12_no_fault_reader, C12_no_fault, C12_ends_with_error; termination: `findIdx`, `runG`, `framesWholeG` are total functions
         accepted by Lean's termination checker (well-founded on unread chunks / buffered+unread bytes)
   * model fidelity (buffer window inside bigBuffer, copy-to-front, growth): C12_readMore_refines_array,
-    C12_slice_refines_array — the model's buffer primitives are images of the array-level operations
+    C12_slice_refines_array — the model's buffer primitives are images of the array-level operations;
+    C12_array_level — the parser written on the backing array equals the whole-stream spec too
   * the tree before the fix: C12_chunk_independent_orig (still chunk independent), C12_orig_overflow_witness +
     C12_orig_negative_offset_faults (why it panicked)
 -/
